@@ -15,11 +15,22 @@ RULE = ("polygons with 1..3 subpaths of 3..6 quarter-grid vertices (axis-aligned
         "outside the surface")
 
 
+q_ = lambda v: v / 4.0
+
+
 def make_scene(rng, cid, thorough_dims=False):
     W = rng.choice([0, 1, 2, 3, 4, 5, 6, 8, 12, 16, 24] if not thorough_dims else list(range(0, 25)))
     H = rng.choice([0, 1, 2, 3, 4, 5, 6, 8, 12, 16, 24] if not thorough_dims else list(range(0, 25)))
     ops = scene.grid_polygon(rng, max(W, 1), max(H, 1))
     ops = [o for o in ops]
+    if cid % 64 == 31:
+        # winding numbers in the hundreds: one small polygon repeated 100..300 times in the same direction (the count is
+        # part of the exact polygon; NonZero keeps it filled, EvenOdd looks at its parity)
+        base = []
+        n0 = rng.randrange(3, 6)
+        pts = [(q_(rng.randrange(0, max(W, 1) * 4 + 1)), q_(rng.randrange(0, max(H, 1) * 4 + 1))) for _ in range(n0)]
+        one = ["M " + scene.fpt(*pts[0])] + ["L " + scene.fpt(*p_) for p_ in pts[1:]] + ["Z"]
+        ops = one * rng.choice([100, 127, 128, 129, 200, 255, 256, 257, 300])
     if cid % 16 == 15:
         # the same polygons with some vertices thousands of pixels away from the surface in any direction (still far
         # inside the 16.16 working range of a straight edge: |x| < 16384 px, |y| < 2^29 quarter rows)
@@ -185,6 +196,8 @@ def post(ctx, sr):
 
 
 def concrete(sr, i, k, c, op):
+    if c.get("panic") and k < len(sr.impl[i]) and sr.impl[i][k].panic and k < len(sr.model[i]) and not sr.model[i][k].panic:
+        return "fill panicked on a polygon of the domain (no pixel gets its coverage)"
     return None
 
 
